@@ -183,7 +183,11 @@ pub fn boolean_yank(push_state: &mut PushState, _instruction_cache: &Instruction
 /// stack, without removing the deep item. The index is taken from the INTEGER stack.
 pub fn boolean_yank_dup(push_state: &mut PushState, _instruction_cache: &InstructionCache) {
     if let Some(idx) = push_state.int_stack.pop() {
-        if let Some(deep_item) = push_state.bool_stack.copy(idx as usize) {
+        let corr_index = i32::max(
+            i32::min((push_state.bool_stack.size() as i32) - 1, idx),
+            0,
+        ) as usize;
+        if let Some(deep_item) = push_state.bool_stack.copy(corr_index) {
             push_state.bool_stack.push(deep_item);
         }
     }
